@@ -389,3 +389,101 @@ fn native_zipatch_damaged_nopanic() {
     let _ = std::fs::remove_dir_all(&base);
     s.finish("native_zipatch_damaged_nopanic");
 }
+
+// ---- hand-built patch files for the apply-semantics stand-in (layouts as pinned by the chunk-record units above) ----
+fn nap_chunk(magic: &[u8; 4], body: &[u8]) -> Vec<u8> { let mut c = vec![]; c.extend_from_slice(&(body.len() as u32).to_be_bytes()); c.extend_from_slice(magic); c.extend_from_slice(body); if magic != b"EOF_" { c.extend_from_slice(&[0u8; 4]); } c }
+fn nap_sqpk(op: u8, cmd: &[u8]) -> Vec<u8> { let mut b = vec![]; b.extend_from_slice(&((5 + cmd.len()) as u32).to_be_bytes()); b.push(op); b.extend_from_slice(cmd); nap_chunk(b"SQPK", &b) }
+fn nap_target(platform: u8) -> Vec<u8> { let mut c = vec![0u8; 123]; c[4] = platform; c[5] = 0xFF; c[6] = 0xFF; nap_sqpk(b'T', &c) }
+fn nap_ids(main: u16, sub: u16, file: u32) -> Vec<u8> { let mut c = vec![0u8; 3]; c.extend_from_slice(&main.to_be_bytes()); c.extend_from_slice(&sub.to_be_bytes()); c.extend_from_slice(&file.to_be_bytes()); c }
+fn nap_add(main: u16, sub: u16, file: u32, off_blocks: u32, data: &[u8], delete_blocks: u32) -> Vec<u8> {
+    assert!(data.len() % 128 == 0);
+    let mut c = nap_ids(main, sub, file); c.extend_from_slice(&off_blocks.to_be_bytes()); c.extend_from_slice(&((data.len() / 128) as u32).to_be_bytes()); c.extend_from_slice(&delete_blocks.to_be_bytes()); c.extend_from_slice(data); nap_sqpk(b'A', &c)
+}
+fn nap_del_exp(op: u8, main: u16, sub: u16, file: u32, off_blocks: u32, blocks: u32) -> Vec<u8> { let mut c = nap_ids(main, sub, file); c.extend_from_slice(&off_blocks.to_be_bytes()); c.extend_from_slice(&blocks.to_be_bytes()); c.extend_from_slice(&[0u8; 4]); nap_sqpk(op, &c) }
+fn nap_header(kind: u8, which: u8, main: u16, sub: u16, file: u32, data: &[u8; 1024]) -> Vec<u8> { let mut c = vec![kind, which, 0]; c.extend_from_slice(&main.to_be_bytes()); c.extend_from_slice(&sub.to_be_bytes()); c.extend_from_slice(&file.to_be_bytes()); c.extend_from_slice(data); nap_sqpk(b'H', &c) }
+fn nap_fileop(op: u8, offset: u64, size: u64, expansion: u16, path: &str, payload: &[u8]) -> Vec<u8> {
+    let mut c = vec![op, 0, 0]; c.extend_from_slice(&offset.to_be_bytes()); c.extend_from_slice(&size.to_be_bytes()); c.extend_from_slice(&((path.len() + 1) as u32).to_be_bytes()); c.extend_from_slice(&expansion.to_be_bytes()); c.extend_from_slice(&[0u8; 2]);
+    c.extend_from_slice(path.as_bytes()); c.push(0); c.extend_from_slice(payload); nap_sqpk(b'F', &c)
+}
+/// a file block as the patch stores it: 16-byte header (size 16, 0, 32000 = raw, length), data, zero padding to a multiple of 128
+fn nap_file_block(data: &[u8]) -> Vec<u8> { let mut b = vec![]; b.extend_from_slice(&16u32.to_le_bytes()); b.extend_from_slice(&0u32.to_le_bytes()); b.extend_from_slice(&32000i32.to_le_bytes()); b.extend_from_slice(&(data.len() as i32).to_le_bytes()); b.extend_from_slice(data); while b.len() % 128 != 0 { b.push(0); } b }
+fn nap_empty_block(blocks: u32) -> Vec<u8> { let mut v = vec![0u8; (blocks as usize) << 7]; v[0..4].copy_from_slice(&128i32.to_le_bytes()); v[12..16].copy_from_slice(&((blocks - 1) as i32).to_le_bytes()); v }
+
+//@unit props=C03 label=B tier=quick native=1 fn=patch::ZiPatch::apply bound="by execution on temporary directories: 3 hand-built patches (15, 6 and 4 chunks: FHDR-less header, T, X, I, A, D, E, H(dat version / dat data / index), F(A at offset 0 and at an offset, multi-block, D, M, R), APLY, ADIR, DELD, EOF) applied one after another to a tree with 4 pre-existing files, for the win32 and ps4 target platforms"
+//@desc after applying, the tree is what the reference semantics give: block writes at 128 x the block offset of the dat file named by category, expansion, chunk, file number and target platform, followed by the wipe; delete/expand write an empty-block header of the given block count over zeroed blocks; header updates overwrite the first (version) or second (index/data) KiB; file operations create, overwrite at an offset, truncate, delete and make directories; untouched files keep their bytes; every apply reports success; applying the patches in sequence accumulates their effects
+#[test]
+fn native_zipatch_apply_semantics() {
+    let mut cases = 0u64;
+    for (platform, pname) in [(0u8, "win32"), (2u8, "ps4")] {
+        let base = std::env::temp_dir().join(format!("physis-verif-c03-{}-{pname}", std::process::id()));
+        let _ = std::fs::remove_dir_all(&base);
+        let root = base.join("game");
+        let keep = nzp_content(9, 700);
+        let pre: Vec<(String, Vec<u8>)> = vec![("ffxivgame.ver".to_string(), b"2023.01.01.0000.0000".to_vec()), (format!("sqpack/ffxiv/0a0000.{pname}.dat0"), nzp_content(3, 4096)),
+            ("sqpack/ex1/old.bin".to_string(), nzp_content(4, 300)), ("movie/ffxiv/keep.bk2".to_string(), keep.clone()), ("sqpack/ex2/020201.win32.index".to_string(), nzp_content(5, 64))];
+        nzp_write_tree(&root, &pre);
+        std::fs::create_dir_all(root.join("olddir")).unwrap();
+        let mut model: std::collections::BTreeMap<String, Vec<u8>> = pre.iter().cloned().collect();
+        let header = { let e = base.join("E"); std::fs::create_dir_all(&e).unwrap(); ZiPatch::create(e.to_str().unwrap(), e.to_str().unwrap()).expect("create")[..12].to_vec() };
+        let eof = nap_chunk(b"EOF_", &[]);
+        let write_at = |f: &mut Vec<u8>, off: usize, d: &[u8]| { if f.len() < off + d.len() { f.resize(off + d.len(), 0); } f[off..off + d.len()].copy_from_slice(d); };
+        let (d256, d128) = (nzp_content(21, 256), nzp_content(22, 128));
+        let (h1, h2, h3): ([u8; 1024], [u8; 1024], [u8; 1024]) = (nzp_content(31, 1024).try_into().unwrap(), nzp_content(32, 1024).try_into().unwrap(), nzp_content(33, 1024).try_into().unwrap());
+        let (f1, f2, f3) = (nzp_content(41, 5), nzp_content(42, 40000), nzp_content(43, 77));
+        let dat0 = format!("sqpack/ffxiv/0a0000.{pname}.dat0"); let dat1 = format!("sqpack/ffxiv/0a0000.{pname}.dat1"); let exdat = format!("sqpack/ex1/020101.{pname}.dat3"); let exidx = format!("sqpack/ex1/020101.{pname}.index");
+        // ---- patch 1
+        let mut p1: Vec<Vec<u8>> = vec![];
+        p1.push(nap_chunk(b"APLY", &{ let mut b = vec![]; b.extend_from_slice(&1u32.to_be_bytes()); b.extend_from_slice(&[0u8; 4]); b.extend_from_slice(&0u32.to_be_bytes()); b }));
+        p1.push(nap_target(platform));
+        p1.push(nap_sqpk(b'X', &{ let mut c = vec![0u8, 0, 0]; c.extend_from_slice(&0u64.to_be_bytes()); c }));
+        p1.push(nap_add(0x0a, 0x0000, 0, 2, &d256, 1)); { let f = model.get_mut(&dat0).unwrap(); write_at(f, 256, &d256); write_at(f, 512, &[0u8; 128]); }
+        p1.push(nap_del_exp(b'D', 0x0a, 0x0000, 0, 8, 3)); { let f = model.get_mut(&dat0).unwrap(); write_at(f, 1024, &nap_empty_block(3)); }
+        p1.push(nap_del_exp(b'E', 0x0a, 0x0000, 1, 0, 2)); { let f = model.entry(dat1.clone()).or_default(); write_at(f, 0, &nap_empty_block(2)); }
+        p1.push(nap_add(0x02, 0x0101, 3, 16, &d128, 0)); { let f = model.entry(exdat.clone()).or_default(); write_at(f, 2048, &d128); }
+        p1.push(nap_header(b'D', b'V', 0x02, 0x0101, 3, &h1)); { let f = model.get_mut(&exdat).unwrap(); write_at(f, 0, &h1); }
+        p1.push(nap_header(b'D', b'D', 0x02, 0x0101, 3, &h2)); { let f = model.get_mut(&exdat).unwrap(); write_at(f, 1024, &h2); }
+        p1.push(nap_header(b'I', b'I', 0x02, 0x0101, 0, &h3)); { let f = model.entry(exidx.clone()).or_default(); write_at(f, 1024, &h3); }
+        p1.push(nap_fileop(b'M', 0, 0, 0, "sqpack/ex3/", &[]));
+        p1.push(nap_fileop(b'A', 0, f1.len() as u64, 0, "ffxivboot.exe", &nap_file_block(&f1))); model.insert("ffxivboot.exe".to_string(), f1.clone());
+        p1.push(nap_fileop(b'A', 0, f2.len() as u64, 0, "movie/ffxiv/00000.bk2", &{ let mut b = nap_file_block(&f2[..16000]); b.extend(nap_file_block(&f2[16000..32000])); b.extend(nap_file_block(&f2[32000..])); b })); model.insert("movie/ffxiv/00000.bk2".to_string(), f2.clone());
+        p1.push(nap_chunk(b"ADIR", &{ let mut b = vec![]; b.extend_from_slice(&7u32.to_be_bytes()); b.extend_from_slice(b"newdir\0"); b }));
+                // ---- patch 2: overwrite at an offset, shrink by rewriting at 0, delete a file
+        let mut p2: Vec<Vec<u8>> = vec![];
+        p2.push(nap_target(platform));
+        p2.push(nap_fileop(b'A', 3, f3.len() as u64, 0, "ffxivboot.exe", &nap_file_block(&f3))); { let f = model.get_mut("ffxivboot.exe").unwrap(); write_at(f, 3, &f3); }
+        p2.push(nap_fileop(b'A', 0, 5, 0, "movie/ffxiv/00000.bk2", &nap_file_block(&f1))); model.insert("movie/ffxiv/00000.bk2".to_string(), f1.clone());
+        p2.push(nap_fileop(b'D', 0, 0, 0, "sqpack/ex1/old.bin", &[])); model.remove("sqpack/ex1/old.bin");
+        p2.push(nap_sqpk(b'I', &{ let mut c = vec![b'A', 0, 0]; c.extend_from_slice(&0u64.to_be_bytes()); c.extend_from_slice(&0u32.to_be_bytes()); c.extend_from_slice(&0u32.to_be_bytes()); c.extend_from_slice(&[0u8; 8]); c }));
+        p2.push(nap_chunk(b"DELD", &{ let mut b = vec![]; b.extend_from_slice(&7u32.to_be_bytes()); b.extend_from_slice(b"olddir\0"); b }));
+                // ---- patch 3: remove all of expansion 2
+        let mut p3: Vec<Vec<u8>> = vec![];
+        p3.push(nap_target(platform));
+        p3.push(nap_fileop(b'R', 0, 0, 2, "", &[])); model.remove("sqpack/ex2/020201.win32.index");
+        p3.push(nap_add(0x0a, 0x0000, 0, 0, &d128, 0)); { let f = model.get_mut(&dat0).unwrap(); write_at(f, 0, &d128); }
+                for (k, chunks) in [p1, p2, p3].iter().enumerate() {
+            let assemble = |n: usize| -> Vec<u8> { let mut v = header.clone(); for c in chunks[..n].iter() { v.extend_from_slice(c); } v.extend_from_slice(&eof); v };
+            let pf = base.join(format!("p{k}.patch"));
+            std::fs::write(&pf, assemble(chunks.len())).unwrap();
+            let r = ZiPatch::apply(root.to_str().unwrap(), pf.to_str().unwrap());
+            if r.is_err() {
+                // name the first chunk the patch stops being accepted at (on a scratch directory)
+                let scratch = base.join("S"); let mut first = chunks.len();
+                for n in 1..=chunks.len() { let _ = std::fs::remove_dir_all(&scratch); std::fs::create_dir_all(&scratch).unwrap(); let q = base.join("q.patch"); std::fs::write(&q, assemble(n)).unwrap();
+                    if ZiPatch::apply(scratch.to_str().unwrap(), q.to_str().unwrap()).is_err() { first = n - 1; break; } }
+                panic!("patch {} is rejected ({pname}): {:?}; first chunk not accepted: #{first} {:?}", k + 1, r.err().map(|e| format!("{e:?}")), String::from_utf8_lossy(&chunks[first.min(chunks.len() - 1)][4..13]));
+            }
+            cases += 1;
+        }
+        let got = nzp_read_tree(&root);
+        let gk: Vec<&String> = got.keys().collect(); let mk: Vec<&String> = model.keys().collect();
+        assert_eq!(gk, mk, "files in the tree after the three patches ({pname})");
+        for (k, v) in model.iter() { assert!(got[k] == *v, "content of {k} ({pname}): {} bytes, expected {}; first difference at {:?}", got[k].len(), v.len(), got[k].iter().zip(v.iter()).position(|(a, b)| a != b)); }
+        assert!(got["movie/ffxiv/keep.bk2"] == keep, "an untouched file keeps its bytes");
+        assert!(root.join("sqpack/ex3").is_dir(), "MakeDirTree created the directory");
+        assert!(!root.join("sqpack/ex2").exists(), "RemoveAll removed the expansion's directory");
+        assert!(root.join("newdir").is_dir(), "ADIR created the directory");
+        assert!(!root.join("olddir").exists(), "DELD removed the (empty) directory");
+        let _ = std::fs::remove_dir_all(&base);
+    }
+    println!("NATIVE native_zipatch_apply_semantics cases={cases}");
+}
